@@ -298,6 +298,48 @@ def stage_system_names(rep, rng, thorough):
     return bad
 
 
+def stage_call_names(rep, rng, names):
+    """The name as an argument of $(call RULE,...) (link inputs, multi-output parameters): the real Makefile writer
+    (define + Call), the real make, the recorder. The guard of C01_call_arg (no comma outside parentheses, balanced
+    parentheses) separates the proved domain from the two open findings; the witnesses of C01_call_arg_comma_refuted /
+    C01_call_arg_paren_refuted are replayed first."""
+    from . import c01
+    from bfg9000.path import Path
+    bad = 0
+    for n in ['ma,in.o', 'o(ne.o', 'o)ne.o', 'f(a,b).o'] + list(names):
+        try:
+            if Path(n).suffix != n:
+                continue
+            p = Path(n)
+        except ValueError:
+            continue
+        got, text, out = c01.run_call_channel([p], ['out'])
+        if got is not None and len(got) == 2 and len(got[0]) == 4 and got[0][1] == './' + n:
+            got[0][1] = n              # a bare file name in a command is written as ./name: the same file
+        rep.case('call:' + n, True)
+        rep.count('call:guard_ok' if c01.call_word_ok(n) else 'call:outside_guard')
+        if got != [['L1', n, '--', 'out'], ['L2', 'all', 'out']]:
+            cls = list(classify(n, 'make'))
+            if not c01.call_word_ok(n):
+                depth, top_comma, unbalanced = 0, False, False
+                for c in n:
+                    if c == ',' and depth == 0:
+                        top_comma = True
+                    depth += (c == '(') - (c == ')')
+                    if depth < 0:
+                        unbalanced = True
+                        break
+                if top_comma:
+                    cls.append('make-call-comma')
+                if unbalanced or depth != 0:
+                    cls.append('make-call-paren')
+            if rep.fail('Make: name %r passed through $(call RULE,...) is delivered as %r' % (n, got),
+                        {'name': n, 'delivered': got, 'makefile': text, 'out': out[-300:]}, classes=tuple(cls)):
+                bad += 1
+    rep.stage('make call names', names=len(names) + 4, failures=bad)
+    return bad
+
+
 def run(rep):
     rng = random.Random(rep.seed)
     thorough = rep.tier == 'thorough'
@@ -308,6 +350,7 @@ def run(rep):
     dis = stage_w(rep, rng, names)
     found = stage_make(rep, rng, names)
     found += stage_make_recipe_names(rep, rng, names if thorough else names[::3])
+    found += stage_call_names(rep, rng, names if thorough else names[1::3])
     found += stage_ninja(rep, rng, names)
     found += stage_system_names(rep, rng, thorough)
     if dis and not found:
